@@ -20,14 +20,15 @@ Proof.
 Qed.
 
 Lemma drain_step_eq f f' p r p' r' acc :
-  step p r = step p' r' -> length r < f -> length r' < f' ->
+  step p r = step p' r' -> step p r <> Wait -> length r < f -> length r' < f' ->
   drain f p r acc = drain f' p' r' acc.
 Proof.
-  intros E H1 H2. destruct f as [|f]; [lia|]. destruct f' as [|f']; [lia|].
+  intros E NW H1 H2. destruct f as [|f]; [lia|]. destruct f' as [|f']; [lia|].
   cbn [drain].
   pose proof (step_shrinks p r) as HS1. pose proof (step_shrinks p' r') as HS2.
   rewrite <- E in HS2. rewrite <- E.
   destruct (step p r) as [|q x|m x|k]; try reflexivity.
+  - congruence.
   - specialize (HS1 _ eq_refl). specialize (HS2 _ eq_refl). apply drain_fuel; lia.
   - specialize (HS1 _ eq_refl). specialize (HS2 _ eq_refl). apply drain_fuel; lia.
 Qed.
@@ -67,9 +68,12 @@ Proof.
   destruct (Z.ltb 0 (clen p)); [|reflexivity]. reflexivity.
 Qed.
 
+Lemma lift_finish_nowait p r : lift (finish p) r <> Wait.
+Proof. unfold finish. destruct (kind_of (version p)); discriminate. Qed.
+
 Lemma step_split p r b :
   partial p r = true -> b <> [] ->
-  step p (r ++ b) = step (set_body p (body p ++ r)) b.
+  step p (r ++ b) = step (set_body p (body p ++ r)) b /\ step p (r ++ b) <> Wait.
 Proof.
   unfold partial, step. cbn [set_body ph chunked clen].
   destruct (ph p); try discriminate.
@@ -86,14 +90,14 @@ Proof.
   rewrite E1.
   destruct (Z.ltb (Z.of_nat (length r + S (length b))) rem) eqn:E2.
   - assert (E3 : Z.ltb (Z.of_nat (S (length b))) (clen p - Z.of_nat (length (body p) + length r)) = true) by lia.
-    rewrite E3. rewrite set_body_twice. now rewrite app_assoc.
+    rewrite E3. rewrite set_body_twice. split; [now rewrite app_assoc|discriminate].
   - assert (E3 : Z.ltb (Z.of_nat (S (length b))) (clen p - Z.of_nat (length (body p) + length r)) = false) by lia.
     rewrite E3. rewrite set_body_twice.
     replace (Z.to_nat (clen p - Z.of_nat (length (body p) + length r)))
       with (Z.to_nat rem - length r) by lia.
     rewrite firstn_app, skipn_app.
     rewrite (firstn_all2 r) by lia. rewrite (skipn_all2 r) by lia.
-    rewrite app_assoc. reflexivity.
+    rewrite app_assoc. split; [reflexivity|apply lift_finish_nowait].
 Qed.
 
 Lemma body_split f p r b acc :
@@ -105,8 +109,8 @@ Proof.
   - rewrite app_nil_r in *. destruct f as [|f]; [lia|]. cbn [drain].
     rewrite (step_partial _ _ HP). destruct f as [|f]; [lia|]. cbn [drain length].
     now rewrite (step_after_partial _ _ _ HP).
-  - apply drain_step_eq; [|assumption|lia].
-    apply step_split; [assumption|discriminate].
+  - destruct (step_split p r (y :: b) HP) as [E NW]; [discriminate|].
+    apply drain_step_eq; [exact E|exact NW|assumption|lia].
 Qed.
 
 (* ---- the homomorphism on drain ---- *)
@@ -173,7 +177,7 @@ Proof.
       rewrite (drain_app (S (length (r ++ x :: a))) p (r ++ x :: a) [] (y :: b)) by lia.
       destruct (drain (S (length (r ++ x :: a))) p (r ++ x :: a) []) as [s1 m1].
       cbn [fst snd]. destruct s1 as [p1 r1| |]; cbn [continue hfeed nil_b].
-      * rewrite drain_acc. reflexivity.
+      * rewrite drain_acc. now destruct (drain _ p1 _ []).
       * now rewrite app_nil_r.
       * now rewrite app_nil_r.
 Qed.
@@ -214,4 +218,23 @@ Lemma hfeed_leftover_lem s a b ms :
 Proof.
   intros H. rewrite hfeed_app_total, H. unfold then_feed. cbn [fst snd].
   now destruct (hfeed hinit b).
+Qed.
+
+Lemma then_feed_eq x b :
+  then_feed x b = (fst (hfeed (fst x) b), snd x ++ snd (hfeed (fst x) b)).
+Proof. unfold then_feed. now destruct (hfeed (fst x) b). Qed.
+
+Lemma hfeed_app_total_eq s a b :
+  hfeed s (a ++ b)
+  = (fst (hfeed (fst (hfeed s a)) b), snd (hfeed s a) ++ snd (hfeed (fst (hfeed s a)) b)).
+Proof. rewrite hfeed_app_total. apply then_feed_eq. Qed.
+
+Lemma hfeed_app_clean_eq s a b :
+  clean (hfeed s (a ++ b)) ->
+  clean (hfeed s a) /\
+  hfeed s (a ++ b)
+  = (fst (hfeed (fst (hfeed s a)) b), snd (hfeed s a) ++ snd (hfeed (fst (hfeed s a)) b)).
+Proof.
+  intros H. destruct (hfeed_app_clean s a b H) as [H1 H2]. split; [exact H1|].
+  rewrite H2. apply then_feed_eq.
 Qed.
